@@ -159,6 +159,18 @@ class Gen:
             return self.cmp_expr(sc)
         a, sa = self.cmp_expr(sc)
         b, sb = self.cmp_expr(sc)
+        if self.funcs and not self.in_func and self.loop_depth == 0 and self.rng.random() < 0.5:
+            # the right operand calls a function (which may echo or change an outer variable): both operands are evaluated,
+            # whatever the left one gave
+            fn = self.rng.choice(sorted(self.funcs))
+            np_, _ = self.funcs[fn]
+            args = [self.atom_num(sc) for _ in range(np_)]
+            n_, sn = self.atom_num(sc)
+            op = self.rng.choice(["CEq", "CNe", "CLt", "CLe", "CGt", "CGe"])
+            sym = {"CEq": "==", "CNe": "!=", "CLt": "<", "CLe": "<=", "CGt": ">", "CGe": ">="}[op]
+            b = C("ECmp", C(op), C("ECall", fn, [t for t, _ in args]), n_)
+            sb = f"{fn}(" + ", ".join(s_ for _, s_ in args) + f") {sym} {sn}"
+            self.features.add("call-in-condition")
         if self.rng.random() < 0.5:
             self.features.add("&&")
             return C("EAnd", a, b), f"{sa} && {sb}"
